@@ -4,6 +4,7 @@ import (
 	"encoding/json"
 	"flag"
 	"fmt"
+	"go/types"
 	"os"
 	"path/filepath"
 	"regexp"
@@ -51,6 +52,7 @@ func has(ss []string, s string) bool {
 func generate(w *World, prop string) *PropRun {
 	pr := &PropRun{w: w, prop: prop, ctxs: map[string]*FuncCtx{}, assumed: map[string]bool{}, relied: map[string]bool{}}
 	var work []string
+	var ifacePairs [][2]string
 	seen := map[string]bool{}
 	for k, c := range w.contracts {
 		if !c.Extern && has(c.Serves, prop) {
@@ -69,6 +71,14 @@ func generate(w *World, prop string) *PropRun {
 		if c == nil || c.Extern {
 			if c != nil {
 				pr.relied[shortName(k)] = true
+				if len(c.Implementers) > 0 {
+					keys, errs := w.checkImplementers(k, c)
+					pr.errs = append(pr.errs, errs...)
+					work = append(work, keys...)
+					for _, ik := range keys {
+						ifacePairs = append(ifacePairs, [2]string{k, ik})
+					}
+				}
 			}
 			continue
 		}
@@ -118,6 +128,9 @@ func generate(w *World, prop string) *PropRun {
 			lf.obls = append(lf.obls, &Obligation{ID: "lemma#" + lm.Label, Func: "lemma", Kind: "lemma", Props: lm.Props, Clause: lm.Text, Goal: g, Expect: "unsat"})
 		}()
 	}
+	// (calls through an interface with an implementers clause are analysed by cases over the implementers - dispatchCall -
+	// so each implementer's own precondition is an obligation at every call site)
+	_ = ifacePairs
 	pr.obls = append(pr.obls, lf.obls...)
 	sort.Strings(pr.funcs)
 	return pr
@@ -646,4 +659,121 @@ func outDir() string {
 		return d
 	}
 	return verifDir
+}
+
+// checkImplementers: an interface-method contract with an `implementers` clause is only as good as its implementers. The
+// list must be exactly the repository methods implementing the interface (closed world, recomputed from the type checker on
+// every run); each must be under a CHECKED contract that is no-panic when the interface contract is, and whose frame lies
+// inside the interface contract's. Returns the implementers' keys (they join the property's closure) and the mismatches.
+func (w *World) checkImplementers(key string, c *Contract) (keys []string, errs []string) {
+	obj := w.conObj[c]
+	if obj == nil {
+		return nil, nil
+	}
+	sig := obj.Type().(*types.Signature)
+	if sig.Recv() == nil {
+		return nil, nil
+	}
+	iface, ok := types.Unalias(sig.Recv().Type()).Underlying().(*types.Interface)
+	if !ok {
+		return nil, []string{shortName(key) + ": implementers clause on a non-interface method"}
+	}
+	byShort := map[string]string{}
+	for k := range w.funcs {
+		byShort[shortName(k)] = k
+	}
+	want := map[string]bool{}
+	for _, pk := range w.targets {
+		sc := pk.Types.Scope()
+		for _, n := range sc.Names() {
+			tn, ok := sc.Lookup(n).(*types.TypeName)
+			if !ok || tn.IsAlias() {
+				continue
+			}
+			if _, isIface := tn.Type().Underlying().(*types.Interface); isIface {
+				continue
+			}
+			for _, t := range []types.Type{tn.Type(), types.NewPointer(tn.Type())} {
+				if types.Implements(t, iface) {
+					m, _, _ := types.LookupFieldOrMethod(t, true, pk.Types, obj.Name())
+					if fn, ok := m.(*types.Func); ok {
+						want[shortName(fn.FullName())] = true
+					}
+					break
+				}
+			}
+		}
+	}
+	listed := map[string]bool{}
+	for _, it := range c.Implementers {
+		listed[it] = true
+		if !want[it] {
+			errs = append(errs, fmt.Sprintf("%s: listed implementer %s does not implement the interface (contract orphaned)", shortName(key), it))
+		}
+	}
+	var ws []string
+	for it := range want {
+		ws = append(ws, it)
+	}
+	sort.Strings(ws)
+	for _, it := range ws {
+		if !listed[it] {
+			errs = append(errs, fmt.Sprintf("%s: %s implements the interface but is not listed among the implementers (closed world broken)", shortName(key), it))
+			continue
+		}
+		ik := byShort[it]
+		ic := w.contracts[ik]
+		if ic == nil || ic.Extern {
+			errs = append(errs, fmt.Sprintf("%s: implementer %s has no checked contract", shortName(key), it))
+			continue
+		}
+		keys = append(keys, ik)
+		if c.NoPanic && c.PanicsOnly == nil && !(ic.NoPanic && !ic.NoPanicTrusted && ic.PanicsOnly == nil) {
+			errs = append(errs, fmt.Sprintf("%s: is declared nopanic but implementer %s is not checked nopanic", shortName(key), it))
+		}
+		if !c.ModAll {
+			// frames are compared on the heap arrays / ghosts they resolve to
+			rf := w.newFuncCtx("<impl>")
+			resolve := func(cc *Contract) (map[string]bool, error) {
+				out := map[string]bool{}
+				var rerr error
+				func() {
+					defer func() {
+						if r := recover(); r != nil {
+							rerr = fmt.Errorf("%v", r)
+						}
+					}()
+					for _, m := range cc.Modifies {
+						hs, gs := rf.resolveMod(cc, m)
+						for _, h := range hs {
+							out[h] = true
+						}
+						for _, g := range gs {
+							out[g] = true
+						}
+					}
+				}()
+				return out, rerr
+			}
+			have, err1 := resolve(c)
+			need, err2 := resolve(ic)
+			if err1 != nil || err2 != nil {
+				errs = append(errs, fmt.Sprintf("%s: cannot resolve the frames of the interface contract / implementer %s: %v %v", shortName(key), it, err1, err2))
+			}
+			if ic.ModAll {
+				errs = append(errs, fmt.Sprintf("%s: implementer %s modifies * but the interface contract has a frame", shortName(key), it))
+			}
+			var miss []string
+			for h := range need {
+				if !have[h] && !have[strings.TrimPrefix(h, "fresh:")] {
+					miss = append(miss, h)
+				}
+			}
+			sort.Strings(miss)
+			for _, h := range miss {
+				errs = append(errs, fmt.Sprintf("%s: implementer %s modifies %s, outside the interface contract's frame", shortName(key), it, h))
+			}
+		}
+	}
+	return keys, errs
 }
